@@ -183,6 +183,17 @@ Theorem C12_run_conforms_repaired :
 Proof. exact run_stats_spec. Qed.
 Print Assumptions C12_run_conforms_repaired.
 
+(* every output that passes l1_run (in particular: every output of the repaired model, by the theorem
+   above, and every implementation output accepted by the harness) has an ALL row whose sum of block
+   lengths is at most the total covered span: the sum over the reported chromosomes of max - min position
+   over the members of the phase sets with >= 2 members. (all_row_ok already demands that ALL's
+   bp_per_block_sum / min / max equal the sum / min / max of the per-chromosome rows.)                   *)
+Theorem C12_all_row_lengths_within_span :
+  forall (only_snvs : bool) (groups : list (Z * list vrec)) (given : list Z) (out : output),
+  l1_run only_snvs groups given out = true -> all_span_ok only_snvs groups out = true.
+Proof. exact l1_run_all_span. Qed.
+Print Assumptions C12_all_row_lengths_within_span.
+
 (* ------------------------------------------------------------------------------------------------
    non-vacuity                                                                                         *)
 (* the hypotheses of C12_counts_partition_repaired / C12_block_list_spec / C12_block_lengths_bounded:
@@ -229,4 +240,19 @@ Example C12_example_pieces :
   let blocks := [mk [99; 199; 349; 499; 599; 699]; mk [409; 439; 469]; mk [799; 949]] in
   get_nonoverlapping_blocks blocks =
   NOk [mk [99; 199; 349]; mk [409; 439; 469]; mk [499; 599; 699]; mk [799; 949]].
+Proof. vm_compute. reflexivity. Qed.
+
+(* the ALL row is built from the per-chromosome non-overlapping pieces (`split_blocks.extend`), never from a
+   re-split of all blocks of all chromosomes: chr1 has two interleaved sets (100,300 | 200,400), chr2 an ordinary
+   block (150,250) that starts between them — chr1 contributes 200 (the set 10 is split away), chr2 100,
+   ALL min / max / sum = 100 / 200 / 300 *)
+Example C12_example_all_row_cross_chromosome :
+  let h := fun (p ps : Z) => mkRec p true 1 (mkCall (Some [Some 0; Some 1]) true (PSVal ps) None) in
+  match run_stats repaired_rules false false [(1, Some 5000); (2, Some 5000)]
+                  [(1, [h 99 10; h 199 20; h 299 10; h 399 20]); (2, [h 149 30; h 249 30])] [] with
+  | ROk o => (map (fun r => (fst r, d_bsum (snd r))) (o_rows o),
+              option_map (fun a => (d_bmin a, d_bmax a, d_bsum a)) (o_all o)) =
+             ([(1, 200); (2, 100)], Some (100, 200, 300))
+  | RErr _ => False
+  end.
 Proof. vm_compute. reflexivity. Qed.
